@@ -181,6 +181,39 @@ def run(ctx: Ctx) -> int:
             ctx.oblige("C19.b", ok, lp, f"`{saved_var}` remembers the previous `{advanced}` before it is advanced (the walk continues until a fixpoint)" if ok else f"`{saved_var}` is assigned after `{advanced}` was advanced: the loop condition `{ast.unparse(cmp_)}` fails after the first step, so only one missing parent level is tolerated for the doubled creatable flag", fn=init)
     ctx.floor("C19.b-fixpoint-loops", n_fp, 1)
 
+    # every file-system probe of the mode checks looks at the RESOLVED path (the value stored as self._absolute,
+    # or a parent directory derived from it) - the spelling the caller gave only resolves from the process cwd
+    abs_stores = [s for s in walk_local(init) if isinstance(s, ast.Assign) and any(isinstance(t, ast.Attribute) and t.attr == "_absolute" and root_name(t) == "self" for t in s.targets)]
+    ctx.need(abs_stores and all(isinstance(s.value, ast.Name) for s in abs_stores), "Path.__init__: self._absolute = <local>")
+    resolved = {s.value.id for s in abs_stores}
+    rel_stores = [s for s in walk_local(init) if isinstance(s, ast.Assign) and any(isinstance(t, ast.Attribute) and t.attr == "_relative" and root_name(t) == "self" for t in s.targets)]
+    raw = {s.value.id for s in rel_stores if isinstance(s.value, ast.Name)} - resolved
+    derived = set(resolved)
+    changed = True
+    while changed:
+        changed = False
+        for s in walk_local(init):
+            if isinstance(s, ast.Assign) and len(s.targets) == 1 and isinstance(s.targets[0], ast.Name) and s.targets[0].id not in derived:
+                nm = {x.id for x in ast.walk(s.value) if isinstance(x, ast.Name)}
+                if nm & derived and not (nm & raw):
+                    derived.add(s.targets[0].id)
+                    changed = True
+    PROBES = {"os.access", "os.path.isfile", "os.path.isdir", "os.path.exists", "os.stat", "os.path.islink", "os.lstat"}
+    n_probe = 0
+    for c in calls_in(init):
+        if call_name(c) in PROBES and c.args:
+            n_probe += 1
+            names = {x.id for x in ast.walk(c.args[0]) if isinstance(x, ast.Name)}
+            ok = bool(names & derived) and not (names & raw)
+            ctx.oblige(
+                "C19.b",
+                ok,
+                c,
+                f"probe of the resolved path (`{ast.unparse(c.args[0])}`)" if ok else f"`{src(c, 60)}` probes `{ast.unparse(c.args[0])}`, which is not the resolved path ({sorted(resolved)}): for a relative, `~` or file:// spelling, or a cwd other than the process's, the test looks at a different file than the one the Path denotes",
+                fn=init,
+            )
+    ctx.floor("C19.b-probes", n_probe, 15)
+
     # ---------------- C19.c ---------------------------------------------------
     n_sites = 0
     for fq, fn in ctx.repo.all_funcs():
